@@ -125,7 +125,7 @@ class ChatMessagePacket(Packet):
                0x0F if context.protocol_later_eq(550) else \
                0x0E if context.protocol_later_eq(343) else \
                0x0F if context.protocol_later_eq(332) else \
-               0x10 if context.protocol_later_eq(317) else \
+               0x10 if context.protocol_later_eq(318) else \
                0x0F if context.protocol_later_eq(107) else \
                0x02
 
@@ -359,8 +359,11 @@ class PlayerListHeaderAndFooterPacket(Packet):
                0x5F if context.protocol_later_eq(461) else \
                0x50 if context.protocol_later_eq(451) else \
                0x4F if context.protocol_later_eq(441) else \
-               0x4E if context.protocol_later_eq(393) else \
-               0x4A if context.protocol_later_eq(338) else \
+               0x4E if context.protocol_later_eq(389) else \
+               0x4D if context.protocol_later_eq(352) else \
+               0x4C if context.protocol_later_eq(345) else \
+               0x4B if context.protocol_later_eq(343) else \
+               0x4A if context.protocol_later_eq(336) else \
                0x49 if context.protocol_later_eq(335) else \
                0x47 if context.protocol_later_eq(110) else \
                0x48 if context.protocol_later_eq(107) else \
